@@ -6,6 +6,7 @@ import math, os, shutil, tempfile, warnings
 from fractions import Fraction
 import numpy as np
 
+TRIPLES = [(3, 4, 5), (5, 12, 13), (8, 15, 17), (7, 24, 25), (20, 21, 29), (0, 1, 1), (1, 0, 1), (3, 4, 5), (119, 120, 169)]
 CHARSETS = [None, 'abcdefghijklmnopqrstuvwxyz', 'ABCDEFGHIJKLMNOPQRSTUVWXYZ', 'qwertyuiopasdfghjklzxcvbnm', 'MNPQRSTUVWXYZabcdefgh']
 
 
@@ -77,7 +78,9 @@ def choose_surface(rng, mode, dx, dy, dz, oz, exact):
 
 def gen_recipe(rng, kind=None, maxn=(12, 12, 14), force=None):
     """kind: 'exact' (dyadic, unrotated: both the implementation and the exact model are exact),
-    'float' (arbitrary spacings, origin, rotation), 'file' (after t2data write/read)."""
+    'rot' (dyadic spacings, rotated so that the x-axis points along a rational unit vector, e.g. (4/5, -3/5):
+    the model is exact, the implementation rounds), 'float' (arbitrary spacings, origin, rotation),
+    'file' (after t2data write/read)."""
     force = force or {}
     if kind is None: kind = rng.choices(['exact', 'float', 'file'], [40, 40, 20])[0]
     small = rng.random() < 0.6
@@ -91,11 +94,17 @@ def gen_recipe(rng, kind=None, maxn=(12, 12, 14), force=None):
         else: ny = rng.randint(2, min(my, 6))
     nz = rng.randint(2, min(mz, 6 if small else mz))
     if 'n' in force: nx, ny, nz = force['n']
-    exact = kind == 'exact'
-    if kind == 'exact':
+    exact = kind in ('exact', 'rot')
+    axis = None
+    if kind in ('exact', 'rot'):
         dx, dy, dz = dyadic_spacings(rng, nx), dyadic_spacings(rng, ny), dyadic_spacings(rng, nz, -2, 4)
         origin = [float(rng.choice([0, 0, 1, -3, 40, 1000, -2048]) * 2.0 ** rng.randint(-1, 3)) for _ in range(3)]
         angle = 0.0
+        if kind == 'rot':
+            p, q_, h = rng.choice(TRIPLES)
+            if rng.random() < 0.5: p, q_ = q_, p
+            axis = [p * rng.choice([1, -1]), q_ * rng.choice([1, -1]), h]
+            angle = math.degrees(math.atan2(-axis[1] / h, axis[0] / h))      # rotate(angle): x-axis -> (cos, -sin)
     elif kind == 'file':
         dx, dy, dz = file_spacings(rng, nx), file_spacings(rng, ny), file_spacings(rng, nz, True)
         origin = [float(rng.choice([0, 0, 100, -200, 1000])), float(rng.choice([0, 0, 100, -500, 2000])), float(rng.choice([0, 0, 100, -100, 500]))]
@@ -116,9 +125,12 @@ def gen_recipe(rng, kind=None, maxn=(12, 12, 14), force=None):
                   convention=conv, atmos_type=atm, atmvol=atmvol,
                   atmconn=rng.choice([None, None, 1.e-6, 1.e-3, 0.5]) if atm != 2 else None,
                   justify=rng.choice(['r', 'l']), case=rng.choice([None, 'l', 'u']), chars=rng.choice(CHARSETS),
-                  surface=surf, mode=mode,
+                  surface=surf, mode=mode, axis=axis,
                   rot_centre=rng.choice(['origin', 'centre', 'zero']),
                   extra_precision=(kind == 'file' and rng.random() < 0.25))
+    if atm == 2 or (atmvol or 1.e25) > 0.0 or kind in ('exact', 'rot'):
+        if rng.random() < 0.25: recipe['remove_inactive'] = True        # same result unless a block has volume <= 0
+    if rng.random() < 0.2: recipe['origin_block'] = rng.choice(['name', 'block'])
     if rng.random() < 0.3:
         # the new geometry may be named by another convention / justification than the generating one
         rc = rng.randrange(4)
@@ -203,15 +215,31 @@ def rectgeo_kwargs(recipe):
     if av is not None and 0.0 < av < 1.e25: kw['atmos_volume'] = av
     for k in ('justify',):
         if recipe.get('r' + k) is not None: kw[k] = recipe['r' + k]
+    if recipe.get('remove_inactive'): kw['remove_inactive'] = True
     return kw
 
 
-def run_rectgeo(recipe, grid):
+def origin_block_name(geo):
+    """the block rectgeo's documentation calls the origin block: bottom layer, first column"""
+    return geo.block_name(geo.layerlist[-1].name, geo.columnlist[0].name)
+
+
+def all_inactive(recipe):
+    """remove_inactive with a zero-volume atmosphere block at the head of the block list declares every block
+    inactive (TOUGH2 convention): outside the class of the property"""
+    return bool(recipe.get('remove_inactive')) and recipe['atmos_type'] != 2 and recipe.get('atmvol') == 0.0
+
+
+def run_rectgeo(recipe, grid, geo=None):
     """-> (geo1, blockmap, None) or (None, None, 'ExcName: text')"""
     try:
+        kw = rectgeo_kwargs(recipe)
+        if recipe.get('origin_block') and geo is not None:
+            nm = origin_block_name(geo)
+            kw['origin_block'] = nm if recipe['origin_block'] == 'name' else grid.block[nm]
         with warnings.catch_warnings():
             warnings.simplefilter('ignore')
-            geo1, bm = grid.rectgeo(**rectgeo_kwargs(recipe))
+            geo1, bm = grid.rectgeo(**kw)
         return geo1, bm, None
     except Exception as e:
         return None, None, '%s: %s' % (type(e).__name__, str(e)[:200])
@@ -252,6 +280,9 @@ def oracle(recipe, geo, grid, geo1, bm, err, fail):
     cls = input_class(recipe)
     tag = (':' + '+'.join(cls)) if cls else ''
     filed = recipe['kind'] == 'file'
+    if all_inactive(recipe):
+        st['outside_class_all_inactive'] = 1
+        return st
     if err is not None:
         extra = ''
         if (nx == 1 or ny == 1) and recipe['atmos_type'] == 2 and origin_column_single_layer(recipe):
@@ -397,7 +428,7 @@ def oracle(recipe, geo, grid, geo1, bm, err, fail):
 def check_recipe(recipe, fail):
     geo = build_geo(recipe)
     grid = build_grid(recipe, geo)
-    geo1, bm, err = run_rectgeo(recipe, grid)
+    geo1, bm, err = run_rectgeo(recipe, grid, geo)
     return oracle(recipe, geo, grid, geo1, bm, err, fail), geo, grid, geo1, bm, err
 
 
@@ -442,13 +473,16 @@ def case_line(recipe, geo, grid):
     surf = recipe['surface'] or [oz] * (nx * ny)
     rl, rc = new_names(recipe, kw)
     cn = ';'.join('%s=%s' % (hx(b.name), ','.join('%s:%s' % (hx(p[0]), hx(p[1])) for p in b.connection_name)) for b in grid.blocklist)
+    ax = recipe.get('axis') or [1, 0, 1]
+    p0 = geo.nodelist[0].pos                       # position of the first node (after the rotation, as the implementation computed it)
     f = ['R', str(recipe['atmos_type']), qs(geo.atmosphere_volume), qs(geo.atmosphere_connection),
-         qs(recipe['origin'][0]), qs(recipe['origin'][1]), qs(oz),
+         qs(p0[0]), qs(p0[1]), qs(oz), '%d/%d' % (ax[0], ax[2]), '%d/%d' % (ax[1], ax[2]),
          ';'.join(qs(v) for v in recipe['dx']), ';'.join(qs(v) for v in recipe['dy']), ';'.join(qs(v) for v in recipe['dz']),
          ';'.join(qs(v) for v in surf),
          str(recipe['convention']), ';'.join(hx(l.name) for l in geo.layerlist), ';'.join(hx(c.name) for c in geo.columnlist),
          qs(kw.get('atmos_volume', 1.e25)), qs(kw['layer_snap']), str(kw['atmos_type']), str(kw['convention']),
-         ';'.join(hx(n) for n in rl), ';'.join(hx(n) for n in rc), cn]
+         ';'.join(hx(n) for n in rl), ';'.join(hx(n) for n in rc), cn,
+         hx(origin_block_name(geo)) if recipe.get('origin_block') else '-']
     return '\t'.join(f)
 
 
@@ -463,11 +497,25 @@ def first_diff(a, b):
 
 
 def compare_model(recipe, geo, grid, geo1, bm, err, out):
-    """Extracted model vs implementation, exactly (the inputs are dyadic and both sides are exact).
+    """Extracted model vs implementation.  Unrotated dyadic cases: exactly (==; both sides are exact).
+    Rotated cases (x-axis along a rational unit vector): the model is exact, the implementation rounds
+    (sin/cos/asin/sqrt in floating point): numbers within 1e-9 of the coordinate scale, names exactly.
     Returns a list of difference strings."""
     parts = out.split('\t')
     diffs = []
     if len(parts) < 3: return ['model output malformed: %r' % out[:200]]
+    rot = bool(recipe.get('axis')) and recipe['axis'][:2] != [1, 0]
+    Ls = max([1.0] + [abs(float(v)) for n in geo.nodelist for v in n.pos])
+    Zs = max([1.0] + [abs(float(l.bottom)) for l in geo.layerlist] + [abs(float(c.surface)) for c in geo.columnlist])
+
+    def same(m, v, scale=0.0):
+        """model rational m vs implementation float v"""
+        if not rot: return m == F(v)
+        v = float(v)
+        if v != v: return False
+        mf = m.numerator / m.denominator
+        return abs(mf - v) <= 1e-9 * max(abs(mf), abs(v), scale)
+
     # --- the forward map: rect_grid vs t2grid().fromgeo(mulgrid().rectangular(...))
     mb = [x.split(':') for x in parts[0].split(';')] if parts[0] else []
     ib = grid.blocklist
@@ -476,10 +524,10 @@ def compare_model(recipe, geo, grid, geo1, bm, err, out):
         diffs.append('forward: block names/order: model vs impl ' + first_diff(mnames, [b.name for b in ib]))
     else:
         for x, b in zip(mb, ib):
-            if pq(x[1]) != F(b.volume): diffs.append('forward: block %r volume: model %s impl %r' % (b.name, x[1], float(b.volume))); break
-            mc = None if x[2] == 'None' else (pq(x[2]), pq(x[3]), pq(x[4]))
-            ic = None if b.centre is None else tuple(F(v) for v in b.centre)
-            if mc != ic: diffs.append('forward: block %r centre: model %r impl %r' % (b.name, mc, b.centre)); break
+            if not same(pq(x[1]), b.volume): diffs.append('forward: block %r volume: model %s impl %r' % (b.name, x[1], float(b.volume))); break
+            if (x[2] == 'None') != (b.centre is None): diffs.append('forward: block %r centre: model %r impl %r' % (b.name, x[2], b.centre)); break
+            if b.centre is not None and not (same(pq(x[2]), b.centre[0], Ls) and same(pq(x[3]), b.centre[1], Ls) and pq(x[4]) == F(b.centre[2])):
+                diffs.append('forward: block %r centre: model %r impl %r' % (b.name, [float(pq(v)) for v in x[2:5]], b.centre)); break
     mc_ = [x.split(':') for x in parts[1].split(';')] if parts[1] else []
     ic_ = grid.connectionlist
     mk = [(unhx(x[0]), unhx(x[1])) for x in mc_]
@@ -488,10 +536,11 @@ def compare_model(recipe, geo, grid, geo1, bm, err, out):
         diffs.append('forward: connection names/order/orientation: model vs impl ' + first_diff(mk, ik))
     else:
         for x, c in zip(mc_, ic_):
-            if int(x[2]) != int(c.direction): diffs.append('forward: connection %r direction: model %s impl %r' % (ik[0], x[2], c.direction)); break
-            if (pq(x[3]), pq(x[4])) != (F(c.distance[0]), F(c.distance[1])):
+            if int(x[2]) != int(c.direction): diffs.append('forward: connection %r direction: model %s impl %r' % (tuple(b.name for b in c.block), x[2], c.direction)); break
+            hz = int(x[2]) != 3
+            if not (same(pq(x[3]), c.distance[0], 1e-3 * Ls if hz else 0.0) and same(pq(x[4]), c.distance[1], 1e-3 * Ls if hz else 0.0)):
                 diffs.append('forward: connection %r distances: model %s,%s impl %r' % (tuple(b.name for b in c.block), x[3], x[4], [float(d) for d in c.distance])); break
-            if pq(x[5]) != F(c.area): diffs.append('forward: connection %r area: model %s impl %r' % (tuple(b.name for b in c.block), x[5], float(c.area))); break
+            if not same(pq(x[5]), c.area, 1e-3 * Ls * Zs if hz else 0.0): diffs.append('forward: connection %r area: model %s impl %r' % (tuple(b.name for b in c.block), x[5], float(c.area))); break
     # --- rectgeo
     if parts[2].startswith('RAISE '):
         exn = parts[2][6:]
@@ -509,25 +558,36 @@ def compare_model(recipe, geo, grid, geo1, bm, err, out):
         return diffs
     P = [n.pos for n in geo1.nodelist]
     nanpos = any(v != v for p in P for v in p)
-    if mpos == 'ROTATED': diffs.append('rectgeo: model reports a rotated grid (outside the exact model)')
-    elif (mpos == 'NAN') != nanpos: diffs.append('rectgeo: position: model %s, implementation %s' % (mpos, 'NaN' if nanpos else 'finite'))
+    if (mpos == 'NAN') != nanpos: diffs.append('rectgeo: position: model %s, implementation %s' % (mpos, 'NaN' if nanpos else 'finite'))
     elif not nanpos:
-        x0, y0 = (pq(v) for v in mpos.split(':'))
-        if (F(P[0][0]), F(P[0][1])) != (x0, y0): diffs.append('rectgeo: position: model (%s, %s), implementation %r' % (x0, y0, P[0].tolist()))
-        idx = [F(P[i + 1][0]) - F(P[i][0]) for i in range(nxm)]
-        idy = [F(P[(j + 1) * (nxm + 1)][1]) - F(P[j * (nxm + 1)][1]) for j in range(nym)]
-        if idx != mdx: diffs.append('rectgeo: spacings 1: ' + first_diff(mdx, idx))
-        if idy != mdy: diffs.append('rectgeo: spacings 2: ' + first_diff(mdy, idy))
-        if float(geo1.permeability_angle) != 0.0: diffs.append('rectgeo: implementation angle %r, model 0' % float(geo1.permeability_angle))
+        x0, y0, ax, ay = (pq(v) for v in mpos.split(':'))
+        # every node of the new geometry, from the model's position, orientation and spacings
+        X = [Fraction(0)]; Y = [Fraction(0)]
+        for d in mdx: X.append(X[-1] + d)
+        for d in mdy: Y.append(Y[-1] + d)
+        k = 0
+        for j in range(nym + 1):
+            for i in range(nxm + 1):
+                mx, my = x0 + X[i] * ax - Y[j] * ay, y0 + X[i] * ay + Y[j] * ax
+                if not (same(mx, P[k][0], Ls) and same(my, P[k][1], Ls)):
+                    diffs.append('rectgeo: node %d: model (%r, %r), implementation %r' % (k, float(mx), float(my), P[k].tolist())); break
+                k += 1
+            else: continue
+            break
+        ang = math.radians(float(geo1.permeability_angle))
+        if not rot:
+            if float(geo1.permeability_angle) != 0.0 or (ax, ay) != (1, 0): diffs.append('rectgeo: orientation: implementation angle %r, model axis (%s, %s)' % (float(geo1.permeability_angle), ax, ay))
+        elif abs(math.cos(ang) - float(ax)) > 1e-9 or abs(math.sin(ang) - float(ay)) > 1e-9:
+            diffs.append('rectgeo: orientation: implementation angle %r, model axis (%r, %r)' % (float(geo1.permeability_angle), float(ax), float(ay)))
     # areas carry the horizontal spacings also when the position is NaN
-    ia = [F(c.area) for c in geo1.columnlist]
+    ia = [c.area for c in geo1.columnlist]
     ma = [mdx[i] * mdy[j] for j in range(nym) for i in range(nxm)]
-    if ia != ma: diffs.append('rectgeo: column areas: ' + first_diff(ma, ia))
+    if not all(same(m, v) for m, v in zip(ma, ia)): diffs.append('rectgeo: column areas: ' + first_diff(ma, [F(v) for v in ia]))
     idz = [F(l.top) - F(l.bottom) for l in geo1.layerlist[1:]]
     if idz != mdz: diffs.append('rectgeo: spacings 3: ' + first_diff(mdz, idz))
     if F(geo1.layerlist[0].bottom) != moz: diffs.append('rectgeo: top elevation: model %s implementation %r' % (moz, float(geo1.layerlist[0].bottom)))
-    isf = [F(c.surface) for c in geo1.columnlist]
-    if isf != msurf: diffs.append('rectgeo: surfaces: ' + first_diff(msurf, isf))
+    isf = [c.surface for c in geo1.columnlist]
+    if not all(same(m, v, Zs) for m, v in zip(msurf, isf)) or len(isf) != len(msurf): diffs.append('rectgeo: surfaces: ' + first_diff(msurf, [F(v) for v in isf]))
     md = {}
     for kv in (mmap.split(';') if mmap else []):
         k, v = kv.split(':')
